@@ -907,8 +907,11 @@ def _node(draw, spec, decl, p):
     if res['variety'] in ('sc', 'eo'):
         node['attrs'] = draw(_attr_values(spec, res['attrs'], tns_prefix))
     if decl.get('nillable') and draw(st.integers(0, 2)) == 0:
-        node['nil'] = True
+        # every lexical form of xs:boolean true nils the element; True stands for the spelling 'true'
+        node['nil'] = draw(st.sampled_from([True, True, '1', '1', '1', ' true ', '1 ', '\n1']))
         return node
+    if decl.get('nillable') and draw(st.integers(0, 3)) == 0:
+        node['nilattr'] = draw(st.sampled_from(['false', '0', ' 0 ']))      # explicit xsi:nil="false": not nilled
     if res['variety'] == 'eo':
         for i, k in enumerate(res['kids']):
             hi = 3 if k['max'] == 'unbounded' else min(k['max'], 3)
@@ -1191,10 +1194,43 @@ def path_expr(draw, spec):
     return [s, sorted(feats)]
 
 
+_TWIN_BASES = ['xs:int', 'xs:string', 'xs:date', 'xs:boolean', 'xs:gYearMonth', 'xs:decimal', 'xs:double', 'xs:token',
+               'xs:unsignedByte', 'xs:time']
+
+
+@st.composite
+def twin_spec(draw, spec):
+    """A second schema (same target namespace, same XSD version) whose named simple types REUSE the names of `spec`
+    with a base type of another primitive family: {ns}T0 restricts xs:int in one and xs:date in the other."""
+    own = types_by_name(spec)
+    names = [t['name'] for t in spec['types'] if t['def'][0] in ('restriction', 'list', 'union')][:3] or ['T0']
+    tw = {'xsd': spec['xsd'], 'tns': spec['tns'], 'efd': spec['efd'], 'types': [], 'root': None}
+    for name in names:
+        old_prim = None
+        if name in own:
+            r = resolve(spec, name)
+            r = r['item'] if r['variety'] == 'list' else r
+            old_prim = builtin_primitive(r['builtin']) if r['variety'] == 'atomic' else None
+        cands = [b for b in _TWIN_BASES if builtin_primitive(b[3:]) != old_prim]
+        base = draw(st.sampled_from(cands))
+        facet = draw(_facet_for(tw, resolve(tw, base))) if draw(st.booleans()) else None
+        tw['types'].append({'name': name, 'def': ['restriction', base, facet]})
+    kids = []
+    for i, name in enumerate(names):
+        t = name if draw(st.integers(0, 3)) > 0 else ['list', name] if list_item_ok(resolve(tw, name)) else name
+        kids.append({'name': ELEM_NAMES[i], 'type': t, 'min': 1, 'max': draw(st.sampled_from([1, 2])), 'nillable': False,
+                     'default': None, 'fixed': None})
+    tw['root'] = {'name': 'root', 'kids': kids,
+                  'attrs': [{'name': 'n', 'type': names[0], 'use': 'required', 'default': None, 'fixed': None}]}
+    return tw
+
+
 @st.composite
 def case(draw, n_instances=3, n_paths=16):
     spec = draw(schema_spec())
     insts = [draw(instance(spec)) for _ in range(n_instances)]
     paths = [draw(path_expr(spec)) for _ in range(n_paths)]
     tree = draw(st.sampled_from(['et', 'et-doc', 'lxml', 'lxml-doc']))
-    return {'spec': spec, 'instances': insts, 'paths': paths, 'tree': tree}
+    tw = draw(twin_spec(spec))
+    return {'spec': spec, 'instances': insts, 'paths': paths, 'tree': tree,
+            'twin': {'spec': tw, 'instances': [draw(instance(tw))]}}
